@@ -67,6 +67,49 @@ func VerifNew(o VerifOptions) *Federation {
 	return f
 }
 
+// VerifNewServing builds a Federation like VerifNew, but peers created by member events DO run their real connect
+// loop (serveEventStream: dial, handshake, serve, back off, reconnect).  For harness processes that put real gRPC
+// between the nodes; it must not be mixed with VerifNew in one process (VerifNew switches the loop off globally).
+func VerifNewServing(o VerifOptions) *Federation {
+	if log == nil {
+		log = zap.NewNop()
+	}
+	f := &Federation{
+		config:        &Config{NodeName: o.NodeName},
+		nodeName:      o.NodeName,
+		localSubStore: &localSubStore{},
+		fedSubStore: &fedSubStore{
+			TrieDB:     mem.NewStore(),
+			sharedSent: map[string]uint64{},
+		},
+		serfEventCh: make(chan serf.Event, 16),
+		sessionMgr: &sessionMgr{
+			sessions: map[string]*session{},
+		},
+		peers: make(map[string]*peer),
+		exit:  make(chan struct{}),
+		serf:  o.Serf,
+	}
+	f.localSubStore.init(o.LocalSubs)
+	f.retainedStore = o.Retained
+	f.publisher = o.Publisher
+	return f
+}
+
+// VerifNodeJoinAddr is nodeJoin for one member whose event-stream address (tag fed_addr) is addr.
+func (f *Federation) VerifNodeJoinAddr(name, addr string) {
+	f.nodeJoin(serf.MemberEvent{Type: serf.EventMemberJoin, Members: []serf.Member{{Name: name, Tags: map[string]string{"fed_addr": addr}}}})
+}
+
+// VerifStopPeers stops every peer (their connect loops end).
+func (f *Federation) VerifStopPeers() {
+	f.memberMu.Lock()
+	defer f.memberMu.Unlock()
+	for _, p := range f.peers {
+		p.stop()
+	}
+}
+
 // VerifStartEventHandler runs the real membership event loop (membership.go eventHandler).
 func (f *Federation) VerifStartEventHandler() { go f.eventHandler() }
 
